@@ -113,6 +113,28 @@ def build_session(rng, tmp, nops, metrics):
     return s
 
 
+def sweep_session(rng, tmp, metrics):
+    """Deterministic coverage: every metric is evaluated on every kind of special pair at least once (signed vectors,
+    exact zeros, negative zeros, tiny/huge magnitudes, float32), twice in a row and once more through fresh copies."""
+    import numpy as np
+    s = SC.Session(rng, tmp)
+    dim = 3
+    pool = {
+        "signed1": np.array([-1.5, 0.25, -1e-17]), "signed2": np.array([2.0, -0.5, 3.0]), "zeros": np.zeros(dim), "mixed0": np.array([0.0, 1.5, 2.5]),
+        "negzero": -np.zeros(dim), "tiny": np.full(dim, 1e-300), "huge": np.full(dim, 1e150), "pos1": np.array([0.5, 1.25, 3.0]), "pos2": np.array([2.0, 0.75, 1.0]),
+        "f32zero": np.zeros(dim, dtype=np.float32), "f32pos": np.array([1.0, 2.0, 0.5], dtype=np.float32), "simplex": np.array([0.25, 0.75, 0.0]),
+    }
+    idx = {k: s.add(v, k) for k, v in pool.items()}
+    s.seal()
+    pairs = [("signed1", "signed2"), ("signed2", "signed1"), ("zeros", "pos1"), ("pos1", "zeros"), ("mixed0", "mixed0"), ("negzero", "pos2"),
+             ("tiny", "huge"), ("pos1", "pos2"), ("f32zero", "f32pos"), ("simplex", "pos1"), ("zeros", "zeros")]
+    for m in metrics:
+        for a, b in pairs:
+            s.dist(m, idx[a], idx[b])
+            s.dist(m, idx[a], idx[b])
+    return s
+
+
 def clause_pid(clause, e):
     return "C07" if clause[0] in ("caller_array_modified_by", "distance_value_depends_on_history", "refit_on_equal_data_gives_different_forest", "twin_full_state_differs", "prediction_not_a_function_of_the_sample") else None
 
@@ -128,6 +150,7 @@ def run(tier, seed):
     sessions = []
     for i in range(60 if thorough else 14):
         sessions.append((build_session(rng, tmp, rng.randrange(40, 200 if thorough else 90), mets), {"i": i}))
+    sessions.append((sweep_session(rng, tmp, mets), {"i": "sweep"}))
     rej = SC.judge(rep, sessions, "c07", clause_pid)
     rep.sample({"first_events": sessions[0][0].ev[:3], "pool": sessions[0][0].names})
     rep.cov["distinct_content_ids"] = sum(len(s.I) for s, _ in sessions)
